@@ -6,7 +6,7 @@ import sys
 from props.common import call, viol, hx
 from sim.objects import build, snapshot, order_fingerprint
 from ref import fa, regexp as rrx
-from gen import fa as genfa, regexp as genrx
+from gen import fa as genfa, regexp as genrx, edits
 import gambatools.regexp_algorithms as ra
 
 ID = 'C06'
@@ -26,12 +26,41 @@ def gen_cases(rng, tier, rnd):
         if rng.random() < 0.4:
             k = rng.randint(1, 3)
             t = genrx.tree(rng, rng.randint(0, 10), list('abc'[:k]), leaf_weights=rng.choice([(15, 15, 70), (5, 5, 90), (30, 30, 40)]))
-            m = dict(zip('abc', rng.sample('abcdefghijklmnopqrstuvwxyz', 3)))
+            pool = list('abcdefghijklmnopqrstuvwxyz') + (['0', '1'] * 10 if rng.random() < 0.4 else [])
+            vals = rng.sample(pool, 3)
+            if len(set(vals)) < 3:
+                continue
+            m = dict(zip('abc', vals))
             cases.append({'kind': 'rx', 'tree': genrx.rename_tree(t, m), 'abs': hx(t)})
         else:
-            a = genfa.abstract_dfa(rng, 1, 5, 1, 2, unreachable_max=1) if rng.random() < 0.8 else genfa.structured_dfa(rng)
+            r = rng.random()
+            if r < 0.25:
+                a = genfa.abstract_dfa(rng, 1, 4, 3, 3, unreachable_max=0)          # three symbols
+            elif r < 0.85:
+                a = genfa.abstract_dfa(rng, 1, 5, 1, 2, unreachable_max=1)
+            else:
+                a = genfa.structured_dfa(rng)
             s, rank = genfa.rename(a, rng, special_p=0.05)
-            cases.append({'kind': 'dfa', 'spec': s, 'rank': rank, 'abs': hx(a)})
+            if rng.random() < 0.3 and len(s['Sigma']) <= 2:
+                # binary alphabets: the symbols 0 and 1 are also the constants of the regexp syntax
+                m = dict(zip(sorted(s['Sigma']), rng.sample(['0', '1'], len(s['Sigma']))))
+                s['Sigma'] = [m[x] for x in s['Sigma']]
+                s['delta'] = [[p, m[x], t] for p, x, t in s['delta']]
+                rank['Sigma'] = {m[k]: v for k, v in rank['Sigma'].items() if k in m}
+            case = {'kind': 'dfa', 'spec': s, 'rank': rank, 'abs': hx(a)}
+            if rng.random() < 0.35:
+                # history: other conversions happen earlier in the same interpreter (a twin, another DFA, names start/accept)
+                pre = []
+                for _ in range(rng.randint(1, 2)):
+                    if rng.random() < 0.4:
+                        pre.append(edits.twin(rng, s))
+                    else:
+                        b = genfa.abstract_dfa(rng, 1, 3, len(s['Sigma']), len(s['Sigma']), unreachable_max=0)
+                        pre.append(genfa.rename(b, rng, special_p=0.3, keep_symbols=True)[0])
+                case['prelude'] = pre
+            if rng.random() < 0.25:
+                case['edit'] = edits.propose(rng, s)
+            cases.append(case)
     return cases
 
 
@@ -77,43 +106,65 @@ def run_case(case, env):
         out['scheds'] = [hx([case['abs'], fp])]
         out['digest'] = hx([dig, fp])
         return out
-    # ---- DFA -> regexp
-    D = build(case['spec'])
-    s0 = snapshot(D)
+    # ---- DFA -> regexp: a mini-session in one pristine interpreter
     site = 'dfa_to_regexp'
     out['probes']['kind_dfa'] = 1
-    fp = order_fingerprint(D, case.get('rank', {}))
-    st, val, ticks = call(env, ra.dfa_to_regexp, D, budget=6_000_000)
-    out['ticks'] += ticks
-    if snapshot(D) != s0:
-        out['viol'].append(viol('argument-mutated', site, {'before': s0, 'after': snapshot(D)}))
-    if {'start', 'accept'} & set(s0['Q']):
-        out['probes']['state_named_start_or_accept'] = 1
-    if st == 'timeout':
-        out['viol'].append(viol('no-result-within-budget', site, val))
-    elif st == 'exc':
-        tags = ['state-named-start-or-accept'] if ({'start', 'accept'} & set(s0['Q'])) and val.startswith('AssertionError') else []
-        out['viol'].append(viol('exception', site, val, tags=tags))
-    else:
+    out['evals'] = 0
+    todo = [(sp, 'prelude') for sp in case.get('prelude', [])] + [(case['spec'], 'main')]
+    if case.get('prelude'):
+        out['probes']['earlier_conversions_in_same_interpreter'] = 1
+    fp = []
+    D = None
+    phases = list(todo) + ([(None, 'after-inplace-edit')] if case.get('edit') else [])
+    for sp, role in phases:
+        if role == 'after-inplace-edit':
+            edits.apply(D, case['edit'])
+            if fa.validate_dfa(snapshot(D)):
+                return {'harness_error': 'edit produced an invalid DFA: %s' % (case['edit'],)}
+            out['probes']['inplace_edit_between_calls'] = 1
+        else:
+            # rename of abstract symbols in a prelude DFA keeps the alphabet size but not the letters: harmless
+            D = build(sp)
+        s0 = snapshot(D)
+        tags = [] if role == 'main' else [role]
+        if role == 'main':
+            fp = order_fingerprint(D, case.get('rank', {}))
+        out['evals'] += 1
+        st, val, ticks = call(env, ra.dfa_to_regexp, D, budget=6_000_000)
+        out['ticks'] += ticks
+        if snapshot(D) != s0:
+            out['viol'].append(viol('argument-mutated', site, {'before': s0, 'after': snapshot(D)}, tags=tags))
+        if {'start', 'accept'} & set(s0['Q']):
+            out['probes']['state_named_start_or_accept'] = 1
+        if set(s0['Sigma']) & {'0', '1'}:
+            out['probes']['alphabet_contains_0_or_1'] = 1
+        if len(s0['Sigma']) >= 3:
+            out['probes']['three_symbols'] = 1
+        if st == 'timeout':
+            out['viol'].append(viol('no-result-within-budget', site, val, tags=tags))
+            continue
+        if st == 'exc':
+            t2 = ['state-named-start-or-accept'] if ({'start', 'accept'} & set(s0['Q'])) and val.startswith('AssertionError') else []
+            out['viol'].append(viol('exception', site, val, tags=tags + t2))
+            continue
         try:
             t = snapshot(val)['tree']
         except Exception as e:
-            out['viol'].append(viol('invalid-result', site, 'not a regexp: %s' % e))
-            t = None
-        if t is not None:
-            c_in = fa.canon_of(s0)
-            extra = rrx.symbols(t) - set(s0['Sigma'])
-            if extra:
-                out['viol'].append(viol('language-differs', site, {'symbols_outside_alphabet': sorted(extra)}))
-            else:
-                c_out = rrx.canon_of_regexp(t, sigma=s0['Sigma'])
-                if c_in != c_out:
-                    out['viol'].append(viol('language-differs', site, {'word': fa.canon_distinguishing_word(c_in, c_out)}))
-                out['hist']['regexp_nodes'] = rrx.size(t)
-                dig = hx(c_out)
-            if len(s0['Q']) >= 2 and not fa.canon_is_empty(c_in) and not fa.canon_is_universal(c_in):
-                out['nontrivial_keys'] = [case['abs']]
-                out['probes']['nontrivial'] = 1
+            out['viol'].append(viol('invalid-result', site, 'not a regexp: %s' % e, tags=tags))
+            continue
+        c_in = fa.canon_of(s0)
+        extra = rrx.symbols(t) - set(s0['Sigma'])
+        if extra:
+            out['viol'].append(viol('language-differs', site, {'symbols_outside_alphabet': sorted(extra)}, tags=tags))
+        else:
+            c_out = rrx.canon_of_regexp(t, sigma=s0['Sigma'])
+            if c_in != c_out:
+                out['viol'].append(viol('language-differs', site, {'word': fa.canon_distinguishing_word(c_in, c_out), 'dfa': s0}, tags=tags))
+            out['hist']['regexp_nodes'] = out['hist'].get('regexp_nodes', 0) + rrx.size(t)
+            dig = [dig, hx(c_out)]
+        if role == 'main' and len(s0['Q']) >= 2 and not fa.canon_is_empty(c_in) and not fa.canon_is_universal(c_in):
+            out['nontrivial_keys'] = [case['abs']]
+            out['probes']['nontrivial'] = 1
     out['scheds'] = [hx([case['abs'], fp])]
     out['digest'] = hx([dig, fp])
     return out
@@ -150,6 +201,18 @@ def shrink(case):
             c['tree'] = t
             yield c
     else:
+        if case.get('edit'):
+            c = copy.deepcopy(case); del c['edit']
+            yield c
+        for i in range(len(case.get('prelude', []))):
+            c = copy.deepcopy(case)
+            del c['prelude'][i]
+            yield c
+        for i, sp in enumerate(case.get('prelude', [])):
+            for t in genfa.shrink_dfa(sp):
+                c = copy.deepcopy(case)
+                c['prelude'][i] = t
+                yield c
         for t in genfa.shrink_dfa(case['spec']):
             c = copy.deepcopy(case)
             c['spec'] = t
